@@ -89,6 +89,19 @@ func (a *AliasMangler) Mangle(sf reflect.StructField) ([]reflect.StructField, er
 		setAliases = append(setAliases, tag+"="+originalVals[tag])
 	}
 
+	// The alias field must only answer to the alias names: a source-specific
+	// name tag without an alias of its own would give the alias field the
+	// very same name as the original field (so setting that name sets both
+	// and Unmangle reports a conflict), so drop it and let the name be
+	// derived from the aliased base tag.
+	if len(a.tags) > 1 {
+		for _, tag := range a.tags[1:] {
+			if _, aliased := aliasVals[tag]; !aliased {
+				tags.Delete(tag)
+			}
+		}
+	}
+
 	newDialsDesc := "base dialsdesc unset" // be pessimistic in case dialsdesc isn't set
 	if desc, getErr := tags.Get(common.DialsHelpTextTag); getErr == nil {
 		newDialsDesc = desc.Name
